@@ -182,11 +182,13 @@ class HasAccessibles(HasProperties):
                                 if c(self, value):
                                     break
                             if wfunc:
-                                new_value = wfunc(self, new_value)
-                                self.log.debug('write_%s(%r) returned %r', pname, value, new_value)
-                                if new_value is Done:  # TODO: to be removed when all code using Done is updated
+                                returned_value = wfunc(self, new_value)
+                                self.log.debug('write_%s(%r) returned %r', pname, value, returned_value)
+                                if returned_value is Done:  # TODO: to be removed when all code using Done is updated
                                     return getattr(self, pname)
-                                new_value = value if new_value is None else validate(new_value)
+                                if returned_value is not None:
+                                    new_value = validate(returned_value)
+                                # else: keep the validated input value
                         except SECoPError as e:
                             e.raising_methods.append(f'{self.name}.write_{pname}')
                             raise
